@@ -50,6 +50,14 @@ structure St where
   idx : Index
   view : View := []
   status : List (Nat × Nat) := []
+  /-- the parent function when the tree is small enough to also evaluate the (slow, list-based)
+      Spec definitions next to the Model: a disagreement is answered as `spec-differs:…` -/
+  spec : Option (Nat → Option Nat) := none
+  /-- the last tip given to `setTip` -/
+  tipId : Option Nat := none
+
+/-- answer `out`, flagged when the Spec evaluation (if enabled) disagrees -/
+def chk (ok : Bool) (out : String) : String := if ok then out else "spec-differs:" ++ out
 
 def St.valid (s : St) (n : Nat) : Bool :=
   match s.status.find? (·.1 == n) with
@@ -65,12 +73,17 @@ def op (s : St) (tok : String) : Option (St × String) :=
   | ["tip", n] => do
     let n ← parseOid n
     let v' := setTip idx v n
-    pure ({ s with view := v' }, viewDigest v')
+    let ok := match s.spec, n with
+      | some P, some t => v' == (Spec.pathDown P t).map some
+      | _, _ => true
+    pure ({ s with view := v', tipId := n }, chk ok (viewDigest v'))
   | ["view"] => some (s, if v.isEmpty then "-" else ".".intercalate (v.map pid))
   | ["anc", n, h] => do
     let n ← n.toNat? >>= inIdx
     let h ← h.toInt?
-    pure (s, pid (ancestor idx n h))
+    let r := ancestor idx n h
+    let ok := match s.spec with | some P => r == Spec.ancestorAt P n h | none => true
+    pure (s, chk ok (pid r))
   | ["skip", n] => do
     let n ← n.toNat? >>= inIdx
     pure (s, pid ((idx[n]?.map (·.ancestor)).join))
@@ -81,16 +94,28 @@ def op (s : St) (tok : String) : Option (St × String) :=
   | ["isa", n, o] => do
     let n ← n.toNat? >>= inIdx
     let o ← parseOid o
-    pure (s, b01 (isAncestor idx n o))
+    let r := isAncestor idx n o
+    let ok := match s.spec, o with
+      | some P, some o => r == Spec.isStrictAncestor P n o
+      | _, _ => true
+    pure (s, chk ok (b01 r))
   | ["has", n] => do
     let n ← n.toNat? >>= inIdx
-    pure (s, b01 (v.contains idx n))
+    let r := v.contains idx n
+    let ok := match s.spec, s.tipId with
+      | some P, some t => r == (Spec.pathUp P t).contains n
+      | _, _ => true
+    pure (s, chk ok (b01 r))
   | ["nxt", n] => do
     let n ← parseOid n
     pure (s, pid (v.next idx n))
   | ["fork", n] => do
     let n ← parseOid n
-    pure (s, pid (findFork idx v n))
+    let r := findFork idx v n
+    let ok := match s.spec, s.tipId, n with
+      | some P, some t, some n => if n < idx.size then r == Spec.lca P t n else true
+      | _, _, _ => true
+    pure (s, chk ok (pid r))
   | ["at", h] => do
     let h ← h.toInt?
     pure (s, pid (v.nodeByHeight h))
@@ -98,7 +123,13 @@ def op (s : St) (tok : String) : Option (St × String) :=
   | ["loc", n] =>
     if n == "-" then some (s, ids (blockLocator idx v none)) else do
     let n ← n.toNat?
-    pure (s, ids (blockLocatorFromHash idx v n))
+    let r := blockLocatorFromHash idx v n
+    let ok := match s.spec with
+      | some P => if n < idx.size then
+          r.map some == (Spec.locatorHeights (Spec.depth P n)).map (fun (k : Nat) => Spec.ancestorAt P n (k : Int))
+        else true
+      | none => true
+    pure (s, chk ok (ids r))
   | [kind, loc, stop, mx] =>
     if kind == "inv" ∨ kind == "hdr" then do
       let loc ← parseLoc loc
@@ -106,7 +137,11 @@ def op (s : St) (tok : String) : Option (St × String) :=
       let mx ← mx.toNat?
       match locateBlocks idx v loc stop mx with
       | none => pure (s, "panic")
-      | some l => pure (s, ids l)
+      | some l =>
+        let ok := match s.spec, s.tipId with
+          | some P, some t => l == Spec.locate (Spec.pathDown P t) idx.known loc stop mx
+          | _, _ => true
+        pure (s, chk ok (ids l))
     else if kind == "linv" then do
       let loc ← parseLoc loc
       let stop ← stop.toNat?
@@ -213,7 +248,8 @@ def handle : List String → String
   | "t" :: segs :: toks =>
     match parseSegs segs with
     | none => "bad-op"
-    | some ps => runOps { idx := build ps } toks
+    | some ps => runOps { idx := build ps,
+                          spec := if ps.length ≤ 150 then some (Spec.parentOf ps) else none } toks
   | "hf" :: segs :: bad :: ds =>
     match parseSegs segs, parseLoc bad with
     | some ps, some bad =>
